@@ -676,6 +676,11 @@ def float_sweep(repo, quick=True, known=(), stats=None):
         nr_ = abs(A_).sum(axis=0).max()
         # steps placed by ||A h||_1 on both sides of every switch of expmint / getEPQ
         allm.append((k_, A_, [t_ / nr_ for t_ in ((0.3, 1.5, 2.05, 2.2, 4.0, 5.6, 20.0) if quick else (0.01, 0.3, 0.9, 1.5, 2.05, 2.2, 3.0, 4.0, 5.0, 5.6, 8.0, 20.0, 60.0))]))
+    # a single-state system over a wide range of |a h| (the exact scalar formulas cancel badly for small |a h|), and integer-typed state matrices with integer steps
+    allm.append(("1x1 decaying", np.array([[-0.37]]), [1e-6 / 0.37, 1e-5 / 0.37, 1e-4 / 0.37, 1e-3 / 0.37, 1e-2 / 0.37, 0.3, 2.0, 9.0]))
+    allm.append(("1x1 growing", np.array([[0.52]]), [2e-6, 3e-4, 0.05, 1.0, 5.0]))
+    allm.append(("integer-typed 2x2 with integer steps", np.array([[0, 1], [-2, -1]]), [1, 2, 3]))
+    allm.append(("integer-typed 3x3 with integer steps", np.array([[-1, 2, 0], [0, -2, 1], [1, 0, -3]]), [1, 2]))
     for matname, A, hs_own in allm:
         n = A.shape[0]
         Amp = mpmath.matrix(A.tolist())
@@ -700,12 +705,25 @@ def float_sweep(repo, quick=True, known=(), stats=None):
                     got["expmint"] = em.expmint(A, h, True)
                 except RuntimeError:
                     pass                 # the power-series fallback refuses explicitly (maximum loops exceeded): a refusal is not a wrong answer
+                Bfl = None
+                if A.dtype.kind in "iu":
+                    Bfl = (np.arange(1, 2 * n + 1).reshape(n, 2) % 5 - 1.75) / 3.0          # a non-integer input matrix next to the integer-typed A and h
                 for fn in ("getEPQ1", "getEPQ2", "getEPQ", "getEPQ_pow"):
                     if fn == "getEPQ_pow" and h * abs(A).sum() > 30:
                         continue
                     for order in (0, 1):
                         try:
                             got["%s(order=%d)" % (fn, order)] = getattr(em, fn)(A, h, order=order)
+                            if Bfl is not None:
+                                eb, pb, qb = getattr(em, fn)(A, h, order=order, B=Bfl)
+                                e0, p0, q0 = got["%s(order=%d)" % (fn, order)]
+                                scb = max(abs(np.asarray(p0) @ Bfl).max(), 1e-300)
+                                okb = np.allclose(eb, e0, rtol=1e-10, atol=1e-12) and abs(pb - np.asarray(p0) @ Bfl).max() <= 1e-9 * scb and \
+                                    (order == 0 or abs(qb - np.asarray(q0) @ Bfl).max() <= 1e-9 * max(abs(np.asarray(q0) @ Bfl).max(), 1e-300))
+                                ev += 1
+                                if not okb:
+                                    return ev, dict(function="%s(order=%d, B)" % (fn, order), output="P/Q with an input matrix", A=A.tolist(), h=h,
+                                                    what="pyyeti.expmint.%s with an input matrix B does not return (P B, Q B) of the call without B for A=%s h=%g" % (fn, matname, h))
                         except RuntimeError:
                             pass
             for nm, val in got.items():
